@@ -49,6 +49,7 @@ type op struct {
 	Kind string `json:"k"`
 	P    int    `json:"p,omitempty"`
 	Mask int    `json:"mask,omitempty"`
+	Dup  int    `json:"dup,omitempty"` // prune: peers of Mask that the seen list names a second time
 	Net  int    `json:"net,omitempty"`
 	N    int    `json:"n,omitempty"`
 }
@@ -185,6 +186,7 @@ type stats struct {
 	unavailTickInFP  bool
 	unflagBeforeTO   bool
 	pruneFlagged     bool
+	pruneDup         bool
 	blocked          int
 	sweepsWithBlocks int
 	reflagAfterBlock bool
@@ -290,6 +292,12 @@ func run(c kase) (st stats, sig string, err error) {
 						st.pruneFlagged = true
 					}
 					model[p] = mpeer{}
+				}
+			}
+			for p := 0; p < c.Peers; p++ {
+				if o.Mask&o.Dup&(1<<uint(p)) != 0 {
+					seen = append(seen, peerAddr(p))
+					st.pruneDup = true
 				}
 			}
 			b.PruneUnseen(seen)
@@ -421,6 +429,9 @@ func genCase(t *rapid.T) kase {
 			o.P = rapid.IntRange(0, c.Peers-1).Draw(t, "p")
 		case "prune":
 			o.Mask = rapid.IntRange(0, 1<<uint(c.Peers)-1).Draw(t, "mask")
+			if rapid.Bool().Draw(t, "withdup") {
+				o.Dup = o.Mask & rapid.IntRange(0, 1<<uint(c.Peers)-1).Draw(t, "dup")
+			}
 		case "net":
 			o.Net = rapid.SampledFrom([]int{1, 1, 1, 1, 2, 2, 0}).Draw(t, "net")
 		case "tick":
@@ -441,6 +452,7 @@ func record(r *evid.Rec, c kase, st stats) {
 	add(st.unavailTickInFP, "unavailable-tick-inside-flag-period")
 	add(st.unflagBeforeTO, "unflag-before-timeout")
 	add(st.pruneFlagged, "prune-of-flagged-peer")
+	add(st.pruneDup, "prune-list-names-a-peer-twice")
 	add(st.blocked > 0, "some-peer-blocklisted")
 	add(st.blocked > 1, "several-blocklistings")
 	add(st.reflagAfterBlock, "re-flag-after-blocklisting")
@@ -466,7 +478,7 @@ func harnessProblem(r *evid.Rec, sig string, err error) bool {
 	return true
 }
 
-const rule = "rapid draws a schedule of up to 40 (thorough 80) steps over 1-4 peers: Flag(p), Unflag(p), PruneUnseen(subset), network status := available|unavailable|unknown, 1-3 sequencer ticks, Sweep; flag timeout 2-5 ticks (optionally +1/2 tick), optional errors from Blocklist. The harness owns time: the sequencer resolution is 1 ms through the hook, the blocker's own wake-up is 1 h, its sequencer goroutine parks inside the stub's NetworkStatus and is released once per generated tick with the generated status, VerifSweep runs the real block(). Oracle: model of available ticks since the flag; Blocklist calls happen only in sweeps, only for peers flagged (while available) with no Unflag/prune/blocklisting since and for longer than the timeout, each such peer exactly once. Non-trivial = a non-available tick inside a flag period, or an Unflag before the timeout; distinct by hash of the schedule"
+const rule = "rapid draws a schedule of up to 40 (thorough 80) steps over 1-4 peers: Flag(p), Unflag(p), PruneUnseen(list of a subset, some peers named twice), network status := available|unavailable|unknown, 1-3 sequencer ticks, Sweep; flag timeout 2-5 ticks (optionally +1/2 tick), optional errors from Blocklist. The harness owns time: the sequencer resolution is 1 ms through the hook, the blocker's own wake-up is 1 h, its sequencer goroutine parks inside the stub's NetworkStatus and is released once per generated tick with the generated status, VerifSweep runs the real block(). Oracle: model of available ticks since the flag; Blocklist calls happen only in sweeps, only for peers flagged (while available) with no Unflag/prune/blocklisting since and for longer than the timeout, each such peer exactly once. Non-trivial = a non-available tick inside a flag period, or an Unflag before the timeout; distinct by hash of the schedule"
 
 func TestC26_Schedule(t *testing.T) {
 	r := evid.Get(id)
